@@ -59,7 +59,8 @@ def w_tensordot(ctx, rng, idx, param):
     b = gen.rand_tt(rng, r2, c2, gen.rand_ranks(rng, d2, 3, boundary=bb), cb)
     ctx.describe({'op': 'tensordot', 'mode': mode, 'd1': d1, 'd2': d2, 'k': k, 'overwrite': ow, 'a': [r1, c1, a.ranks], 'b': [r2, c2, b.ranks]})
     a_cores = gen.clone_cores(a.cores)  # (a itself is rewritten by the call below when overwrite is on)
-    call('TT.tensordot', lambda: a.tensordot(b, k, mode=mode, overwrite=ow), prop=P, tags=['mode=' + mode])
+    kk_ = gen.as_int(rng, k)  # (the number of contracted axes as Python int or any NumPy integer type, unsigned ones included)
+    call('TT.tensordot', lambda: a.tensordot(b, kk_, mode=mode, overwrite=ow), prop=P, tags=['mode=' + mode])
     if idx % 4 == 0:
         # a train contracted with itself (both operands are one object), with and without overwriting it
         kk = int(rng.integers(1, d1 + 1))
@@ -69,7 +70,8 @@ def w_tensordot(ctx, rng, idx, param):
             for ow2 in (False, True):
                 with probe.oracle():
                     t = tt.TT(gen.clone_cores(a_cores))
-                call('TT.tensordot', lambda: t.tensordot(t, kk, mode=mode, overwrite=ow2), prop=P, tags=['mode=' + mode, 'self_with_self'])
+                kk2 = gen.as_int(rng, kk)
+                call('TT.tensordot', lambda: t.tensordot(t, kk2, mode=mode, overwrite=ow2), prop=P, tags=['mode=' + mode, 'self_with_self'])
     if idx < 3:
         ctx.sample({'workload': 'tensordot', 'mode': mode, 'num_axes': k, 'overwrite': ow, 'self': {'row': r1, 'col': c1, 'ranks': a.ranks},
                     'other': {'row': r2, 'col': c2, 'ranks': b.ranks}})
